@@ -147,3 +147,75 @@ func RunNoCtx(d *fw.Driver, res *fw.Result) error {
 	}
 	return nil
 }
+
+// RunMethods: the auth handler treats every HTTP method alike (the RPC server behind it does not look at the
+// method either): a rejected or malformed token is answered 401 and a valid one is attached, whether the
+// request is a POST, a GET, an OPTIONS preflight look-alike or anything else.
+func RunMethods(d *fw.Driver, res *fw.Result) error {
+	verifyTable := map[string][]auth.Permission{"good": {"read", "write"}}
+	for _, method := range []string{"GET", "POST", "PUT", "OPTIONS", "HEAD", "PATCH", "DELETE"} {
+		for _, hdr := range []string{"Bearer good", "Bearer bad", "Basic good", ""} {
+			for _, q := range []string{"", "good", "bad"} {
+				var nextRan bool
+				var got interface{}
+				h := &auth.Handler{
+					Verify: func(ctx context.Context, token string) ([]auth.Permission, error) {
+						if ps, ok := verifyTable[token]; ok {
+							return ps, nil
+						}
+						return nil, errors.New("rejected")
+					},
+					Next: func(w http.ResponseWriter, r *http.Request) {
+						nextRan = true
+						got = observe(r.Context())
+						w.WriteHeader(200)
+					},
+				}
+				u := "/rpc/v0"
+				if q != "" {
+					u += "?token=" + q
+				}
+				req := httptest.NewRequest(method, u, strings.NewReader(`{"jsonrpc":"2.0","id":1,"method":"F.V","params":[]}`))
+				if hdr != "" {
+					req.Header.Set("Authorization", hdr)
+				}
+				rec := httptest.NewRecorder()
+				h.ServeHTTP(rec, req)
+				ask := map[string]interface{}{"op": "authhttp", "header": hdr, "query": q, "verify": []map[string]interface{}{{"token": "good", "perms": []string{"read", "write"}}}}
+				model, err := d.Ask(ask)
+				if err != nil {
+					return err
+				}
+				impl := map[string]interface{}{"status": rec.Code, "next": nextRan, "attached": got}
+				res.Count("http.method." + method)
+				res.Eval(true, []interface{}{"method", method, hdr, q})
+				// the monitor is the model's answer here: the model knows no HTTP method, so any dependence on it is a disagreement,
+				// and the property's own clauses are checked on the implementation's outcome
+				mon := ""
+				tok, has, malformed := "", false, false
+				switch {
+				case hdr != "":
+					if strings.HasPrefix(hdr, "Bearer ") {
+						tok, has = strings.TrimPrefix(hdr, "Bearer "), true
+					} else {
+						malformed = true
+					}
+				case q != "":
+					tok, has = q, true
+				}
+				switch {
+				case malformed && (nextRan || rec.Code != 401):
+					mon = fmt.Sprintf("%s with a malformed Authorization header: not answered 401 (status %d, next handler ran=%v)", method, rec.Code, nextRan)
+				case has && verifyTable[tok] == nil && (nextRan || rec.Code != 401):
+					mon = fmt.Sprintf("%s with a rejected token: not answered 401 (status %d, next handler ran=%v)", method, rec.Code, nextRan)
+				case has && verifyTable[tok] != nil && (!nextRan || !fw.Equal(got, strs(verifyTable[tok]))):
+					mon = fmt.Sprintf("%s with a valid token: next handler ran=%v with %v attached", method, nextRan, got)
+				case !has && !malformed && (!nextRan || got != nil):
+					mon = fmt.Sprintf("%s without a token: next handler ran=%v with %v attached", method, nextRan, got)
+				}
+				res.Compare(fmt.Sprintf("authhttp method=%s header=%q query=%q", method, hdr, q), ask, model, impl, mon)
+			}
+		}
+	}
+	return nil
+}
